@@ -131,6 +131,8 @@ def unwrap(kind, v):
         return as_seq(v)
     if kind in CUSTOM_KINDS and hasattr(v, "t"):
         return v.t
+    if kind in CUSTOM_KINDS and v is None:
+        return z3.IntVal(NONE_REF)
     if kind in ("id", "text"):
         if isinstance(v, SymId):
             return v.t
@@ -700,6 +702,7 @@ def loop_rule(name, inv, locals_=None, fields=(), elem_cls=None, reverse=False):
                             else frame.locals.get(v)) for v in locals_}
         S = LoopState(i, n, seq, frame, p, entry_locals, entry_heap, havoc_locals)
         p.assume_or_end(conj(inv(S)))
+        p.ghost.setdefault("loop_index", {})[name] = i        # (nested loop contracts may refer to it)
         which = p.choose(2, name)
         if which == 0:
             p.assume_or_end(i < n)
